@@ -21,16 +21,21 @@ func (v *Vue) evalInclude(ctx VueContext, node *html.Node, vars map[string]any, 
 		return nil, fmt.Errorf("include depth exceeded maximum of %d, possible circular include: %s", maxIncludeDepth, ctx.FormatTemplateChain())
 	}
 
-	ctx.stack.Push(vars)
-	defer ctx.stack.Pop()
-
 	// Every include has its own slot content: the children of its tag. The content
-	// remembers the includer's slot scope for <slot> elements written inside it.
+	// remembers the includer's slot scope for <slot> elements written inside it, and the
+	// includer's variables: it is evaluated with them, not with the component's.
 	parentScope := ctx.SlotScope
 	ctx.SlotScope = extractSlotContent(node)
-	for _, content := range ctx.SlotScope.Slots {
-		content.Scope = parentScope
+	if len(ctx.SlotScope.Slots) > 0 {
+		env := ctx.stack.EnvMap()
+		for _, content := range ctx.SlotScope.Slots {
+			content.Scope = parentScope
+			content.Env = env
+		}
 	}
+
+	ctx.stack.Push(vars)
+	defer ctx.stack.Pop()
 
 	// Merge inherited slots from parent template (passed via __slotScope__ in data)
 	if inheritedSlotScopeData, ok := ctx.stack.EnvMap()["__slotScope__"]; ok {
